@@ -27,6 +27,7 @@ fn main() {
         i += 1;
     }
     let rep = match prop.as_str() {
+        "C07" => verif_harness::props::c07::run(&cfg),
         "C06" => verif_harness::props::c06::run(&cfg),
         "C15" => verif_harness::props::c15::run(&cfg),
         "C14" => verif_harness::props::c14::run(&cfg),
